@@ -11,7 +11,9 @@ EXTENDS Naturals, Sequences, FiniteSets, TLC, Json
 
 CONSTANTS V,          \* protocol version: 1 = pair1 (hop header), 0 = pair0 (no header)
           Pipes, MaxCap, MaxMsgs, MaxOps,
-          Hops       \* hop counts the raw peer puts on incoming messages
+          Hops       \* hop-count classes the raw peer puts on incoming messages: "h1", "h8", "h9", "h255" and the
+                     \* malformed ones (> 0xff) "h256", "h300", "hTop" (0x80000000), "hMax" (0xffffffff); classes, because
+                     \* TLC integers are 32-bit signed
 
 VARIABLES
   peer,       \* attached pipe slot, 0 = none
@@ -36,6 +38,8 @@ vars == <<peer, used, wire, wmq, wcap, waq, rmq, rcap, raq, rds, inbox, pclosed,
 
 SeqSet(s) == {s[i] : i \in 1..Len(s)}
 NOps == Len(ops)
+HopNum(h) == CASE h = "h1" -> 1 [] h = "h8" -> 8 [] h = "h9" -> 9 [] h = "h255" -> 255 [] OTHER -> 1000
+HopBad(h) == h \in {"h256", "h300", "hTop", "hMax"}    \* more than 0xff: malformed
 WFull(q, c) == Len(q) >= c
 
 Init ==
@@ -74,7 +78,7 @@ SendSched(S) ==
 Teardown(S) ==
   LET w1 == IF S.wire = <<>> /\ WFull(S.wmq, wcap) THEN FALSE ELSE S.writable   \* wr_ready was set and the buffer is full: cleared
   IN [S EXCEPT !.peer = 0, !.pclosed = FALSE, !.lostOut = @ \cup SeqSet(S.wire), !.wire = <<>>,
-               !.lostIn = @ \cup SeqSet(S.rds) \cup {S.inbox[i].m : i \in {j \in 1..Len(S.inbox) : V = 0 \/ (~S.inbox[j].short /\ S.inbox[j].hop <= 255)}},
+               !.lostIn = @ \cup SeqSet(S.rds) \cup {S.inbox[i].m : i \in {j \in 1..Len(S.inbox) : V = 0 \/ (~S.inbox[j].short /\ ~HopBad(S.inbox[j].hop))}},
                !.rds = <<>>, !.inbox = <<>>,
                !.writable = w1, !.readable = IF S.rmq = <<>> THEN FALSE ELSE S.readable]
 
@@ -84,8 +88,8 @@ Pump(S) ==
   IF S.peer = 0 \/ S.rds # <<>> THEN S
   ELSE IF S.inbox = <<>> THEN (IF S.pclosed THEN Teardown(S) ELSE S)      \* the outstanding receive fails: NNG_ECONNSHUT
   ELSE LET x == Head(S.inbox)  T == [S EXCEPT !.inbox = Tail(@)] IN
-       IF V = 1 /\ (x.short \/ x.hop > 255) THEN Teardown([T EXCEPT !.badIn = @ \cup {x.m}])                   \* malformed: disconnect
-       ELSE IF V = 1 /\ x.hop > ttl THEN Pump([T EXCEPT !.lostIn = @ \cup {x.m}])                            \* too many hops: drop, keep going
+       IF V = 1 /\ (x.short \/ HopBad(x.hop)) THEN Teardown([T EXCEPT !.badIn = @ \cup {x.m}])                   \* malformed: disconnect
+       ELSE IF V = 1 /\ HopNum(x.hop) > ttl THEN Pump([T EXCEPT !.lostIn = @ \cup {x.m}])                            \* too many hops: drop, keep going
        ELSE IF T.raq # <<>> THEN Pump(Complete([T EXCEPT !.raq = Tail(@), !.got = Append(@, x.m)], Head(T.raq), "ok", x.m))
        ELSE IF ~WFull(T.rmq, rcap) THEN Pump([T EXCEPT !.rmq = Append(@, x.m), !.readable = TRUE])
        ELSE [T EXCEPT !.rds = <<x.m>>, !.readable = TRUE]
@@ -197,7 +201,7 @@ Inject(h, short) ==
               [a |-> "inject", p |-> peer, m |-> nextMsg, hdr |-> IF short \/ V = 0 THEN <<>> ELSE <<h>>, short |-> short,
                out |-> [rv |-> IF armed THEN "delivered" ELSE "queued"]])
   /\ nextMsg' = nextMsg + 1
-  /\ injected' = IF V = 1 /\ (short \/ h > 255) THEN injected ELSE Append(injected, nextMsg)
+  /\ injected' = IF V = 1 /\ (short \/ HopBad(h)) THEN injected ELSE Append(injected, nextMsg)
   /\ UNCHANGED <<used, wcap, rcap, ttl, onWire>>
 PeerClose ==
   /\ peer # 0 /\ ~pclosed
@@ -209,7 +213,7 @@ Next == \/ SendNb \/ SendAio \/ Take \/ RecvNb \/ RecvAio \/ PeerClose
         \/ (\E n \in 0..MaxCap : SetSendBuf(n) \/ SetRecvBuf(n))
         \/ (V = 1 /\ \E n \in {1, 8} : SetTtl(n))
         \/ (\E p \in Pipes : Connect(p))
-        \/ (\E h \in Hops : Inject(h, FALSE)) \/ (V = 1 /\ Inject(0, TRUE))
+        \/ (\E h \in Hops : Inject(h, FALSE)) \/ (V = 1 /\ Inject("h1", TRUE))
 Spec == Init /\ [][Next]_vars
 
 \* ---------------------------------------------------------------- properties (C08, C15, C18)
